@@ -636,6 +636,8 @@ def emit_harness(prog, confs, steps, tag, throws=False, proj=KINDS_ALL, check_re
         out.append('  kind = VF_KIND; vf_inputs[1] = kind;   /* one query per event kind (guards and payload stay symbolic) */')
         out.append('#endif')
         out.append('  int32_t P = (int32_t)vf_nondet(2);')
+        for px in getattr(prog, 'pay_exclude', ()):
+            out.append('  VF_ASSUME(P != %d);   /* payload value whose successor collides with the marker logged for completion events */' % px)
         cm, cv = fixed_guard_sites(prog, conf)
         out.append('#ifndef VF_GFIX_MASK')
         out.append('#define VF_GFIX_MASK 0u')
@@ -723,6 +725,8 @@ def emit_liveness_harness(prog, confs, tag, proj):
         out.append('  kind = VF_KIND; vf_inputs[1] = kind; VF_ASSUME(%s);' % (' || '.join('kind == %d' % k for k in kinds) or '0'))
         out.append('#endif')
         out.append('  int32_t P = (int32_t)vf_nondet(2);')
+        for px in getattr(prog, 'pay_exclude', ()):
+            out.append('  VF_ASSUME(P != %d);   /* payload value whose successor collides with the marker logged for completion events */' % px)
         out.append('#ifndef VF_GFIX_MASK')
         out.append('#define VF_GFIX_MASK 0u')
         out.append('#define VF_GFIX_VAL 0u')
@@ -787,6 +791,8 @@ def emit_product_harness(prog, confs, steps, tag, maxslots=8, throws=False):
         out.append('  kind = VF_KIND; vf_inputs[1] = kind;')
         out.append('#endif')
         out.append('  int32_t P = (int32_t)vf_nondet(2);')
+        for px in getattr(prog, 'pay_exclude', ()):
+            out.append('  VF_ASSUME(P != %d);   /* payload value whose successor collides with the marker logged for completion events */' % px)
         cm, cv = fixed_guard_sites(prog, conf)
         out.append('#ifndef VF_GFIX_MASK')
         out.append('#define VF_GFIX_MASK 0u')
